@@ -1,6 +1,7 @@
 import Orca.Gen.RefTables
 import Orca.Lemmas.Ops
 import Orca.Lemmas.Preserve
+import Orca.Lemmas.Redirect
 import Orca.Gen.MapSites
 /-!
 # C06 — function references stay bound to the same function across edits
@@ -109,6 +110,44 @@ theorem c06_encode_refs_after_any_history (s0 : St) (h0 : StInv s0) (ops : List 
     ∨ (∃ s' why, encode s = (s', Ret.panic why) ∧ ∃ r ∈ allRefs s, Dangling s r) :=
   let h := spaceInv_after s0 h0 ops hn
   encode_spec _ h.1 h.2.1 h.2.2
+
+/-- **the id reported by `add_import_func` designates the added import — in the encoded module, after any later history** that
+    neither deletes it nor replaces it by a built function (and does not encode). -/
+theorem c06_added_import_designates (s0 : St) (h0 : StInv s0) (uid : Nat) (ops : List Op)
+    (hs : ∀ o ∈ ops, o ≠ .encode ∧ o ≠ .deleteFunc s0.f.items.length ∧ ∀ u c, o ≠ .replaceImport s0.imports.length u c) :
+    let n := (s0.space .F).items.length
+    let s := (run (step s0 (.addImportFunc uid)).1 ops).1
+    reportedId (step s0 (.addImportFunc uid)).2 = some n
+    ∧ ((∃ s' F G M res st, encode s = (s', Ret.encoded F G M res st)
+        ∧ (∀ r' ∈ res ++ st.toList, ∃ r ∈ allRefs s, r'.site = r.site ∧ r'.sp = r.sp
+            ∧ (∃ u, PointsTo s r u ∧ designated F G M r' = some u)
+            ∧ (r.sp = .F → r.idx = n → designated F G M r' = some uid)))
+      ∨ (∃ s' why, encode s = (s', Ret.panic why) ∧ ∃ r ∈ allRefs s, Dangling s r)) := by
+  refine added_id_designates s0 h0 (.addImportFunc uid) .F uid rfl ops ?_
+  intro x hx o ho
+  obtain ⟨a, b, c⟩ := hs o ho
+  have hxi : x.imp = true ∧ x.impId = s0.imports.length := by
+    simp [step, addImportFunc, addImport, St.space, St.setSpace, Space.push, mkItem] at hx
+    rw [← hx]; exact ⟨rfl, rfl⟩
+  show SparesF _ x o
+  cases o with
+  | deleteFunc i => exact fun h => b (by simp only [St.space] at h ⊢; rw [h])
+  | localToImport i u => exact .inr hxi.1
+  | replaceImport k u c' => exact .inr (fun h => c u c' (by rw [← h, hxi.2]))
+  | encode => exact absurd rfl a
+  | _ => exact True.intro
+
+/-- **an id keeps designating its function through every operation that does not address it** (`SparesF`: deleting it, converting
+    it, replacing the import it carries), for every history: the frame the end-to-end statements of C10, C11 and C12 rest on -/
+theorem c06_ids_are_stable (s0 : St) (h0 : StInv s0) (j : Nat) (x : Item) (hx : s0.f.items[j]? = some x)
+    (ops : List Op) (hs : SparedBy j x ops) :
+    let s := (run s0 ops).1
+    (∃ s' F G M res st, encode s = (s', Ret.encoded F G M res st)
+        ∧ (∀ r' ∈ res ++ st.toList, ∃ r ∈ allRefs s, r'.site = r.site ∧ r'.sp = r.sp
+            ∧ (∃ u, PointsTo s r u ∧ designated F G M r' = some u)
+            ∧ (r.sp = .F → r.idx = j → designated F G M r' = some x.uid)))
+    ∨ (∃ s' why, encode s = (s', Ret.panic why) ∧ ∃ r ∈ allRefs s, Dangling s r) :=
+  encode_redirects s0 h0 j x hx ops hs
 
 /-- **the model was written against these uses of the function map** (`section:map:how`, in source order): resolution of
     special modes, the start function (stored back), table initialisers, global initialisers (`ref.func`), function exports,
